@@ -63,9 +63,9 @@ IsRef(x) == x[1] = "ref"
 (* o.xf is a set of names of KNOWN DEVIATIONS of the implementation under  *)
 (* test; where the specification's result and the named deviant reading    *)
 (* differ, the result is DC(name) instead of the specified one, so that a  *)
-(* check can stay green while the finding is open (spec/gen/MC_C13.tla     *)
-(* constants ExcludeFilterOnNonArray / ExcludeMergeNoOverride; see         *)
-(* notes/C13.md).  With o.xf = {} the evaluator is the specification.      *)
+(* check can stay green while the finding is open (constant               *)
+(* KnownDeviations of spec/gen/MC_C13.tla; see notes/C13.md, "SUSPECTED    *)
+(* DEFECTS").  With o.xf = {} the evaluator is the specification.          *)
 RECURSIVE SeqLess(_, _)
 SeqLess(a, b) == IF b = <<>> THEN FALSE
                  ELSE IF a = <<>> THEN TRUE
@@ -91,6 +91,17 @@ KeySeqOrd(f, ord) == LET ks == SetToSeq(DOMAIN f)
 KeySeq(f, o) == KeySeqOrd(f, o.ord)
 
 -----------------------------------------------------------------------------
+\* a null somewhere in a value; an expression that only reads the document / a literal
+RECURSIVE HasNull(_), PlainPath(_)
+HasNull(v) == CASE v[1] = "null" -> TRUE
+                [] v[1] = "arr" -> \E i \in 1..Len(v[2]) : HasNull(v[2][i])
+                [] v[1] = "obj" -> \E k \in DOMAIN v[2] : HasNull(v[2][k])
+                [] OTHER -> FALSE
+PlainPath(e) == CASE e[1] \in {"cur", "fld", "lit", "raw"} -> TRUE
+                  [] e[1] \in {"par", "idx"} -> PlainPath(e[2])
+                  [] e[1] = "sub" -> PlainPath(e[2]) /\ PlainPath(e[3])
+                  [] OTHER -> FALSE
+
 (* "false-like" values (or-expression, and-expression, not-expression,     *)
 (* filter-expression): empty list, empty object, empty string, false, null *)
 Truthy(v) == ~(\/ v[1] = "null"
@@ -223,7 +234,7 @@ Extreme(s, n, wantMax) == IF n = 1 THEN s[1]
 
 -----------------------------------------------------------------------------
 (* The evaluator.  Ev(e, v, o): expression e against current node v.       *)
-RECURSIVE Ev(_, _, _), ProjectOver(_, _, _, _, _), FilterOver(_, _, _, _, _), EvList(_, _, _, _, _),
+RECURSIVE Ev(_, _, _), ProjectOver(_, _, _, _, _), ProjectW(_, _, _), FilterOver(_, _, _, _, _), EvList(_, _, _, _, _),
           EvHash(_, _, _, _, _), EvArgs(_, _, _, _, _), MapOver(_, _, _, _, _), Call(_, _, _, _),
           FilterOnValueDiffers(_, _, _, _)
 
@@ -242,6 +253,12 @@ ProjectOver(s, i, rhs, o, acc) ==
        IN IF Abn(x) THEN x
           ELSE ProjectOver(s, i + 1, rhs, o, IF x[1] = "null" THEN acc ELSE Append(acc, x))
 Project(s, rhs, o) == IF rhs = <<"cur">> THEN JArr(SelectSeq(s, LAMBDA x : x[1] # "null")) ELSE ProjectOver(s, 1, rhs, o, <<>>)
+(* Known deviation "projection-skips-null": list wildcard, hash wildcard and flatten projections do not   *)
+(* apply the right-hand side to null elements (filter and slice projections do).  The two readings differ *)
+(* iff there is a null element and the right-hand side maps null to something else.                      *)
+ProjectW(s, rhs, o) == IF /\ "projection-skips-null" \in o.xf /\ rhs # <<"cur">>
+                          /\ (\E i \in 1..Len(s) : s[i][1] = "null") /\ Ev(rhs, JNull, o) # JNull
+                       THEN DC("projection-skips-null") ELSE Project(s, rhs, o)
 
 (* filter-expression: keep the elements for which the condition is not     *)
 (* false-like                                                               *)
@@ -273,8 +290,10 @@ MapOver(s, i, e, o, acc) ==
 
 \* keys for sort_by / max_by / min_by: every key a number or every key a string, else invalid-type
 \* (a mix of numbers and strings is an invalid-type error too: compliance functions.json, sort_by(people, &name))
+\* (known deviation "by-key-error-ignored": an error raised while the key expression is evaluated is dropped)
 KeysFor(s, e, o) == LET ks == MapOver(s, 1, e, o, <<>>)
-                    IN IF Abn(ks) THEN ks
+                    IN IF ks[1] = "err" /\ "by-key-error-ignored" \in o.xf THEN DC("by-key-error-ignored")
+                       ELSE IF Abn(ks) THEN ks
                        ELSE IF ~(AllNum(ks[2]) \/ AllStr(ks[2])) THEN TypeErr
                        ELSE ks
 
@@ -338,14 +357,17 @@ Call(name, args, v, o) ==
                              ELSE LET nn == SelectSeq(a, LAMBDA x : x[1] # "null") IN IF nn = <<>> THEN JNull ELSE nn[1]
      [] name = "reverse" -> IF IsStrV(a[1]) THEN JStr(Reverse(a[1][2])) ELSE IF IsArrV(a[1]) THEN JArr(Reverse(a[1][2])) ELSE TypeErr
      \* sort(array[number]|array[string])
+     \* (known deviation "sort-singleton": the element type of a one-element array is not checked by sort / sort_by)
      [] name = "sort" -> IF IsArrV(a[1]) /\ (AllNum(a[1][2]) \/ AllStr(a[1][2]))
                          THEN LET s == a[1][2]  ps == [i \in 1..Len(s) |-> <<s[i], s[i]>>] IN JArr(Seconds(SortPairs(ps, Len(ps))))
+                         ELSE IF "sort-singleton" \in o.xf /\ IsArrV(a[1]) /\ Len(a[1][2]) = 1 THEN DC("sort-singleton")
                          ELSE TypeErr
      \* sort_by(array, &expr -> number|string): stable
      [] name = "sort_by" ->
           IF IsArrV(a[1]) /\ IsRef(a[2])
           THEN LET ks == KeysFor(a[1][2], a[2][2], o) IN
-               IF Abn(ks) THEN ks
+               IF ks[1] = "err" /\ "sort-singleton" \in o.xf /\ Len(a[1][2]) = 1 THEN DC("sort-singleton")
+               ELSE IF Abn(ks) THEN ks
                ELSE LET s == a[1][2]  ps == [i \in 1..Len(s) |-> <<ks[2][i], s[i]>>] IN JArr(Seconds(SortPairs(ps, Len(ps))))
           ELSE TypeErr
      \* sum(array[number]); empty -> 0
@@ -357,9 +379,9 @@ Call(name, args, v, o) ==
      [] name = "to_number" -> IF IsNum(a[1]) THEN a[1]
                               ELSE IF IsStrV(a[1]) THEN ToNumberStr(a[1][2])
                               ELSE IF IsRef(a[1]) THEN DC("expref-as-any") ELSE JNull
-     \* to_string: string -> itself; others -> their JSON text (only scalars whose text is unique are modelled)
+     \* to_string: string -> itself; others -> their JSON text.  Only booleans have a unique JSON text
+     \* (white space in containers, 1 vs 1.0 for numbers, and null is not listed)
      [] name = "to_string" -> IF IsStrV(a[1]) THEN a[1]
-                              ELSE IF IsNum(a[1]) THEN JStr(IntText(a[1][2]))
                               ELSE IF a[1][1] = "bool" THEN JStr(IF a[1][2] THEN <<116,114,117,101>> ELSE <<102,97,108,115,101>>)
                               ELSE DC("json-rendering")
      [] name = "type" -> IF IsRef(a[1]) THEN DC("expref-as-any") ELSE JStr(TypeName(a[1]))
@@ -375,11 +397,11 @@ Ev(e, v, o) ==
     [] e[1] \in {"sub", "pipe"} -> LET l == Ev(e[2], v, o) IN IF Abn(l) THEN l ELSE Ev(e[3], l, o)
     [] e[1] = "idx" -> LET l == Ev(e[2], v, o) IN IF Abn(l) THEN l ELSE IndexOf(l, e[3])
     \* projections: the left side must be an array (object for the hash wildcard), otherwise null
-    [] e[1] = "prj" -> LET l == Ev(e[2], v, o) IN IF Abn(l) THEN l ELSE IF l[1] # "arr" THEN JNull ELSE Project(l[2], e[3], o)
+    [] e[1] = "prj" -> LET l == Ev(e[2], v, o) IN IF Abn(l) THEN l ELSE IF l[1] # "arr" THEN JNull ELSE ProjectW(l[2], e[3], o)
     [] e[1] = "vpr" -> LET l == Ev(e[2], v, o) IN
                        IF Abn(l) THEN l ELSE IF l[1] # "obj" THEN JNull
-                       ELSE LET ks == KeySeq(l[2], o) IN Project([i \in 1..Len(ks) |-> l[2][ks[i]]], e[3], o)
-    [] e[1] = "flt" -> LET l == Ev(e[2], v, o) IN IF Abn(l) THEN l ELSE IF l[1] # "arr" THEN JNull ELSE Project(Flatten1(l[2]), e[3], o)
+                       ELSE LET ks == KeySeq(l[2], o) IN ProjectW([i \in 1..Len(ks) |-> l[2][ks[i]]], e[3], o)
+    [] e[1] = "flt" -> LET l == Ev(e[2], v, o) IN IF Abn(l) THEN l ELSE IF l[1] # "arr" THEN JNull ELSE ProjectW(Flatten1(l[2]), e[3], o)
     \* slice: step 0 is an invalid-value error
     [] e[1] = "slc" -> LET l == Ev(e[2], v, o) IN
                        IF Abn(l) THEN l ELSE IF l[1] # "arr" THEN JNull
@@ -401,8 +423,15 @@ Ev(e, v, o) ==
                        IF Abn(l) THEN l
                        ELSE LET r == Ev(e[3], v, o) IN IF ~Truthy(l) THEN (IF Abn(r) THEN DC("short-circuit") ELSE l) ELSE r
     [] e[1] = "not" -> LET x == Ev(e[2], v, o) IN IF Abn(x) THEN x ELSE JBool(~Truthy(x))
+    \* (known deviation "null-vs-reference-equality": a null (in) the left operand does not compare equal to the
+    \* corresponding null of a right operand that was computed rather than read from the document or a literal)
     [] e[1] = "cmp" -> LET l == Ev(e[3], v, o) IN
-                       IF Abn(l) THEN l ELSE LET r == Ev(e[4], v, o) IN IF Abn(r) THEN r ELSE Compare(e[2], l, r)
+                       IF Abn(l) THEN l ELSE LET r == Ev(e[4], v, o) IN
+                       IF Abn(r) THEN r
+                       ELSE IF /\ "null-vs-reference-equality" \in o.xf /\ e[2] \in {"eq", "ne"} /\ l = r
+                               /\ HasNull(l) /\ ~PlainPath(e[4])
+                            THEN DC("null-vs-reference-equality")
+                       ELSE Compare(e[2], l, r)
     \* multi-select on null is null
     [] e[1] = "mls" -> IF v[1] = "null" THEN JNull ELSE EvList(e[2], 1, v, o, <<>>)
     [] e[1] = "mhs" -> IF v[1] = "null" THEN JNull ELSE EvHash(e[2], 1, v, o, EmptyFn)
@@ -410,13 +439,15 @@ Ev(e, v, o) ==
 
 -----------------------------------------------------------------------------
 (* Static conditions: an unknown function, a wrong number of arguments or  *)
-(* a zero slice step somewhere in the expression.  When evaluation reaches *)
+(* a zero slice step somewhere in the expression (and merge() / not_null()  *)
+(* without arguments, on which revisions of the specification and of its   *)
+(* compliance suite disagree).  When evaluation reaches                    *)
 (* such a node the result is an error.  The specification does not say     *)
 (* whether an implementation must (or may) report them when the node is    *)
 (* never evaluated (e.g. inside a projection over an empty list), so for   *)
 (* such an expression an error is always acceptable.                       *)
 RECURSIVE StaticErr(_)
-StaticErr(e) == \/ (e[1] = "fn" /\ (e[2] \notin KnownFns \/ ~ArityOk(e[2], Len(e[3]))))
+StaticErr(e) == \/ (e[1] = "fn" /\ (e[2] \notin KnownFns \/ ~ArityOk(e[2], Len(e[3])) \/ (Arity(e[2]) < 0 /\ e[3] = <<>>)))
                 \/ (e[1] = "slc" /\ StepZero(e[3]))
                 \/ \E i \in 1..Len(Children(e)) : StaticErr(Children(e)[i])
 
@@ -435,26 +466,54 @@ SearchDesc(e, d) == Ev(e, d, Env("desc", {}))
 
 -----------------------------------------------------------------------------------------------------------------------------------------------------
 (* KNOWN DEVIATIONS of the implementation under test that are triggered by *)
-(* the shape of the expression (notes/C13.md, suspected defects 3 and 4).  *)
-(* The generator can leave such expressions out (constants                 *)
-(* ExcludeNotBeforePipe / ExcludePipeIntoLiteral of spec/gen/MC_C13.tla).  *)
-(*  - "!" binds tighter than "|" (the specification's precedence list:     *)
-(*    pipe < or < and < unary not), so "!a | b" is "(!a) | b".  Affected:  *)
-(*    a pipe whose left operand has a not-expression outside parentheses   *)
-(*    and brackets.                                                         *)
-(*  - pipe-expression = expression "|" expression, and a literal or raw    *)
-(*    string is an expression.  Affected: a pipe whose right operand       *)
-(*    starts with a literal or a raw string.                               *)
-RECURSIVE ExposedNot(_), LeftLeaf(_), HasNotBeforePipe(_), HasPipeIntoLiteral(_)
-ExposedNot(l) == CASE l[1] = "not" -> TRUE
-                   [] l[1] \in {"and", "or", "pipe"} -> ExposedNot(l[2]) \/ ExposedNot(l[3])
-                   [] l[1] = "cmp" -> ExposedNot(l[3]) \/ ExposedNot(l[4])
-                   [] OTHER -> FALSE
+(* the shape of the expression (notes/C13.md, "SUSPECTED DEFECTS").  The   *)
+(* generator can leave such expressions out (constant KnownDeviations of   *)
+(* spec/gen/MC_C13.tla).                                                    *)
+(*  "operator-before-pipe": the pipe has the lowest precedence (the        *)
+(*    specification's list: pipe < or < and < unary not), so "!a | b" is   *)
+(*    "(!a) | b" and "a || b | c" is "(a || b) | c".  Affected: a pipe     *)
+(*    whose left operand ends in a not / comparator / && / || expression   *)
+(*    outside parentheses and brackets.                                     *)
+(*  "pipe-into-literal": pipe-expression = expression "|" expression and a *)
+(*    literal or raw string is an expression.  Affected: a pipe whose      *)
+(*    right operand starts with a literal or a raw string.                 *)
+(*  "argument-context-leak": every function argument is evaluated against  *)
+(*    the current node.  Affected: a call in which an argument contains a  *)
+(*    pipe or a projection and a later argument is neither a constant nor  *)
+(*    an expression-type.                                                   *)
+(*  "multiselect-leading-star": "[" "*" only starts a list wildcard when    *)
+(*    "]" follows; otherwise it starts a multi-select-list whose first     *)
+(*    element begins with a hash wildcard (compliance: "[*.*]").           *)
+(*    Affected: a multi-select-list whose first element starts with "*".   *)
+(*  "parenthesised-operand": a paren-expression is an expression like any  *)
+(*    other.  Affected: a not / comparator / && / || expression with an    *)
+(*    operand that contains a parenthesised pipe or projection.            *)
+RECURSIVE OpenOperand(_), LeftLeaf(_), HasPipeOrProjection(_), HasOperatorBeforePipe(_), HasPipeIntoLiteral(_), HasArgumentContextLeak(_),
+          HasParenPP(_), HasParenthesisedOperand(_), StartsWithStar(_), HasLeadingStar(_)
+OpenOperand(l) == l[1] \in {"not", "cmp", "and", "or"} \/ (l[1] = "pipe" /\ (OpenOperand(l[2]) \/ OpenOperand(l[3])))
 LeftLeaf(r) == CASE r[1] \in {"sub", "idx", "prj", "vpr", "flt", "slc", "fil", "pipe", "or", "and", "par"} -> LeftLeaf(r[2])
                  [] r[1] = "cmp" -> LeftLeaf(r[3])
                  [] OTHER -> r
-HasNotBeforePipe(e) == (e[1] = "pipe" /\ ExposedNot(e[2])) \/ \E i \in 1..Len(Children(e)) : HasNotBeforePipe(Children(e)[i])
+HasPipeOrProjection(e) == e[1] \in {"pipe", "prj", "vpr", "flt", "slc", "fil"} \/ \E i \in 1..Len(Children(e)) : HasPipeOrProjection(Children(e)[i])
+HasOperatorBeforePipe(e) == (e[1] = "pipe" /\ OpenOperand(e[2])) \/ \E i \in 1..Len(Children(e)) : HasOperatorBeforePipe(Children(e)[i])
 HasPipeIntoLiteral(e) == (e[1] = "pipe" /\ LeftLeaf(e[3])[1] \in {"lit", "raw"}) \/ \E i \in 1..Len(Children(e)) : HasPipeIntoLiteral(Children(e)[i])
+HasArgumentContextLeak(e) ==
+  \/ (e[1] = "fn" /\ \E i \in 1..Len(e[3]) : \E j \in (i + 1)..Len(e[3]) :
+                        HasPipeOrProjection(e[3][i]) /\ e[3][j][1] \notin {"lit", "raw", "ref"})
+  \/ \E i \in 1..Len(Children(e)) : HasArgumentContextLeak(Children(e)[i])
+HasParenPP(e) == (e[1] = "par" /\ HasPipeOrProjection(e[2])) \/ \E i \in 1..Len(Children(e)) : HasParenPP(Children(e)[i])
+HasParenthesisedOperand(e) == (e[1] \in {"not", "and", "or", "cmp"} /\ \E i \in 1..Len(Children(e)) : HasParenPP(Children(e)[i]))
+                              \/ \E i \in 1..Len(Children(e)) : HasParenthesisedOperand(Children(e)[i])
+StartsWithStar(e) == CASE e[1] = "vpr" -> e[2] = <<"cur">> \/ StartsWithStar(e[2])
+                       [] e[1] \in {"sub", "idx", "prj", "flt", "slc", "fil", "pipe", "or", "and"} -> StartsWithStar(e[2])
+                       [] e[1] = "cmp" -> StartsWithStar(e[3])
+                       [] OTHER -> FALSE
+HasLeadingStar(e) == (e[1] = "mls" /\ StartsWithStar(e[2][1])) \/ \E i \in 1..Len(Children(e)) : HasLeadingStar(Children(e)[i])
+ShapeDeviation(e, xf) == \/ ("operator-before-pipe" \in xf /\ HasOperatorBeforePipe(e))
+                         \/ ("pipe-into-literal" \in xf /\ HasPipeIntoLiteral(e))
+                         \/ ("argument-context-leak" \in xf /\ HasArgumentContextLeak(e))
+                         \/ ("parenthesised-operand" \in xf /\ HasParenthesisedOperand(e))
+                         \/ ("multiselect-leading-star" \in xf /\ HasLeadingStar(e))
 
 -----
 (* UN-PARSER.  Show(e) is the expression string (code points).             *)
